@@ -241,7 +241,7 @@ var c29Pool = []string{
 	"shopt -s expand_aliases", "alias ll='echo ll-alias '", "alias chain='ll '", "alias e2='echo {x,y}'",
 	"ll {a,b}{1,2} tail", "chain ll e2 z", "e2 w",
 	"declare -a arr=({1..3} $s1)", "declare v{1,2}=val", "export ex{a,b}=1", "local_fn() { local q{1,2}=z; echo $q1; }; local_fn",
-	"for i in {1..3} x{a,b}; do echo $i; done", "arr2=({a,b} c [5]=d)", "arr2+=(e{1,2})", "s1+=x", "ENVARR+=x", "ENVARR+=(y z)", "ENVARR[0]=changed", "ENVSPARSE[3]=new", "ENVSPARSE+=(w)", "ENVMAP[k]=changed", "ENVMAP[n]=1", "unset 'ENVMAP[k]'", "unset 'ENVARR[1]'", "unset ENVARR", "ENVSTR+=more", "unset ENVSTR", "export ENVSTR=re", "ENVRO=try 2>/dev/null", "declare -x ENVARR", "readonly ENVMAP",
+	"for i in {1..3} x{a,b}; do echo $i; done", "arr2=({a,b} c [5]=d)", "arr2+=(e{1,2})", "s1+=x", "ENVARR+=x", "ENVARR+=(y z)", "ENVARR+=([1]=X)", "ENVARR+=([0]=Z w)", "ENVARR+=([-1]=neg)", "ENVSPARSE+=([2]=chg)", "ENVSPARSE+=([5]=chg [9]=far)", "ENVMAP+=([k]=new)", "ENVMAP+=([q]=1)", "ENVARR[1]+=app", "ENVMAP[k]+=app", "unset 'ENVSPARSE[2]'", "ENVARR=(${ENVARR[@]} more)", "read -a ENVARR <<< 'r1 r2'", "mapfile -t ENVARR <<< mapped", "declare -a ENVARR", "local_env() { local ENVARR; ENVARR+=(l); }; local_env", "f_env() { ENVARR[0]=in-func; ENVMAP[k]=in-func; }; f_env", "( ENVARR[0]=sub; ENVMAP[k]=sub )", "{ ENVARR+=([1]=bg); } &", "x=$(ENVARR[1]=cs; echo ${ENVARR[1]})", "ENVARR[0]=pipe | cat", "ENVARR[0]=changed", "ENVSPARSE[3]=new", "ENVSPARSE+=(w)", "ENVMAP[k]=changed", "ENVMAP[n]=1", "unset 'ENVMAP[k]'", "unset 'ENVARR[1]'", "unset ENVARR", "ENVSTR+=more", "unset ENVSTR", "export ENVSTR=re", "ENVRO=try 2>/dev/null", "declare -x ENVARR", "readonly ENVMAP",
 	"cat <<EOF\nhere $s1 $(echo sub)\nEOF", "cat <<-EOF\n\ttabbed $s1\n\tline2\n\tEOF", "cat <<'EOF'\nliteral $s1\nEOF", "cat <<< \"hs $s1\"",
 	"f() { echo \"in f: $*\"; return 3; }", "f {p,q} || true", "f a b &", "f x | cat", "trap 'echo trapped' EXIT", "trap 'echo err-trap' ERR", "false", "g() { f inner; }; g",
 	"x=$(echo {1,2} | cat)", "echo $(f c{1,2}) >/dev/null", "cat <(echo {m,n}) >/dev/null", "echo pre{fix,sent} > /home/out.txt", "cat < /home/f1.txt", "cat /home/f2.txt | drain",
@@ -358,6 +358,29 @@ var c31Pool = []c31Prog{
 	{"two-bg-wait", []string{"sleep 500 &", "{ sleep 900; } &", "wait g2", "wait"}, "nil"},
 	{"procsubst-unopened-wait", []string{": <(echo hi)", "wait"}, "nil"},
 	{"procsubst-out-unopened-wait", []string{": >(cat)", "wait"}, "nil"},
+	{"procsubst-unopened-wait-job", []string{": <(echo hi)", "wait g1"}, "nil"},
+	{"procsubst-out-unopened-wait-job", []string{": >(cat)", "wait g1"}, "nil"},
+	{"bg-then-procsubst-wait-jobs", []string{"true &", ": <(echo x)", "wait g1 g2"}, "nil"},
+	{"procsubst-unopened-wait-in-subshell", []string{"( : <(echo hi); wait g1 )"}, "nil"},
+	{"procsubst-unopened-wait-in-function", []string{"pw() { : <(echo hi); wait; }", "pw"}, "nil"},
+	{"until-wait-job", []string{"sleep 1000 &", "until wait g1; do :; done"}, "nil"},
+	{"for-cstyle-sleep", []string{"for ((i=0;;i++)); do sleep 1; done"}, "nil"},
+	{"for-cstyle-in-function", []string{"cf() { for ((;;)); do :; done; }", "cf"}, "nil"},
+	{"for-cstyle-read", []string{"for ((;;)); do read x; done"}, "silent"},
+	{"for-in-endless-inner", []string{"for i in 1 2 3; do while :; do :; done; done"}, "nil"},
+	{"until-read", []string{"until read x; do :; done"}, "silent"},
+	{"case-in-loop", []string{"while :; do case x in x) :;; esac; done"}, "nil"},
+	{"if-in-loop-cmdsubst", []string{"while :; do if [[ $(echo a) == a ]]; then :; fi; done"}, "nil"},
+	{"select-then-loop", []string{"select o in a b; do :; done; while :; do :; done"}, "silent"},
+	{"read-array-in-loop", []string{"while :; do read -a arr; done"}, "silent"},
+	{"mapfile-in-function", []string{"mf() { mapfile -t lines; }", "mf"}, "silent"},
+	{"read-in-pipe-last", []string{"sleep 1000 | read x"}, "nil"},
+	{"read-timeoutless-in-bg-wait", []string{"{ read y; } &", "wait"}, "silent"},
+	{"eval-loop", []string{"eval 'while :; do :; done'"}, "nil"},
+	{"source-loop", []string{"source /home/d1/loop.sh"}, "nil"},
+	{"trap-exit-loop", []string{"trap 'echo bye' EXIT", "while :; do :; done"}, "nil"},
+	{"arith-loop", []string{"while ((1)); do ((x++)); done"}, "nil"},
+	{"brace-group-bg-loops", []string{"{ while :; do :; done; } &", "{ until false; do :; done; } &", "wait g1 g2"}, "nil"},
 	{"procsubst-opened-unread", []string{"sleep 1000 < <(yes)"}, "nil"},
 	{"procsubst-slow-reader", []string{"while read l; do sleep 5; done < <(yes)"}, "nil"},
 	{"pipe-blocked-left", []string{"cat | drain"}, "silent"},
